@@ -398,6 +398,9 @@ class Prov:
                         if var == "Continue":
                             return ("q", base[1])
                         return ("payload", base[1], "Err")
+                    if var == "Some" and name == "0" and base[0] == "call" and _UNSIGNED_CHECKED_SUB.match(base[1]) and len(base[2]) == 2:
+                        # `match a.checked_sub(b) { Some(d) => d, None => .. }`: on the Some side d is a - b
+                        return ("bin", "Sub", base[2][0], base[2][1])
                     if var in OK_VARIANTS and name == "0":
                         return ("q", base)
                     if name == "0":
@@ -420,6 +423,10 @@ class Prov:
             if "ss" in e:
                 return ("subslice", t, tuple(e["ss"]))
         return ("unknown", "proj")
+
+
+import re as _re
+_UNSIGNED_CHECKED_SUB = _re.compile(r"^core::num::<impl u(8|16|32|64|128|size)>::checked_sub$")
 
 
 def _proj_key(proj):
